@@ -93,6 +93,35 @@ def check_fit_data(kind, form, seed=0):
     return f
 
 
+def check_refit(kind, seed=0):
+    """Two fits on the same model with the same bases array object and different data: negative-phase rows of the
+    second run must be reference-basis rows of the second run's data."""
+    rng = np.random.default_rng(seed)
+    st = C.make_state(kind, 3, 2, 1)
+    bases = np.array([list("ZZZ"), list("XZZ"), list("ZZZ"), list("ZYZ"), list("ZZZ"), list("ZZX")])
+    f = []
+    for run in range(2):
+        data = torch.tensor(rng.integers(0, 2, size=(6, 3)), dtype=torch.double)
+        data[:, 0] = float(run)                      # tag the rows of each run
+        seen = []
+        real = st._shuffle_data
+
+        def spy(*a, real=real):
+            out = list(real(*a))
+            seen.extend(p[1].clone() for p in out)
+            return iter(out)
+        st._shuffle_data = spy
+        st.fit(data, epochs=1, pos_batch_size=2, neg_batch_size=3, k=1, lr=0.01, input_bases=bases)
+        del st.__dict__["_shuffle_data"]
+        zrows = {tuple(r) for i, r in enumerate(data.tolist()) if all(c == "Z" for c in bases[i])}
+        for nb in seen:
+            for r in nb.tolist():
+                if tuple(r) not in zrows:
+                    f.append("run %d: a negative-phase chain started from %s, not a reference-basis row of this run's data" % (run + 1, r))
+                    break
+    return f
+
+
 def native_check(quick=True):
     fails, n = [], 0
     grid = [(5, 2, 2), (5, 2, 3), (4, 4, 4), (3, 5, 2), (6, 3, 1), (1, 1, 1)] if quick else \
@@ -103,6 +132,11 @@ def native_check(quick=True):
             n += 1
             if f:
                 fails.append(({"N": N, "B": B, "neg": NB, "bases": wb}, f[:2]))
+    for kind in ("complex", "mixed"):
+        f = check_refit(kind)
+        n += 1
+        if f:
+            fails.append(({"kind": kind, "two fits, same bases object": True}, f[:2]))
     for kind in ("positive", "complex", "mixed"):
         for form in ("tensor", "array", "list"):
             f = check_fit_data(kind, form)
